@@ -1,5 +1,8 @@
 """C12 Glob, LIKE, exact and regex matching agree with their textbook definitions."""
 import re
+import warnings
+
+warnings.simplefilter('ignore', FutureWarning)
 
 from fsx import core
 from fsx import matchers as mt
@@ -11,7 +14,7 @@ RULE = ('name pool over {a,B,1,space} and every metacharacter . + ( ) [ ] { } | 
         'doubled) plus names containing the wildcard characters themselves, all in one directory; patterns derived from '
         'every name: every substring -> multi-wildcard, every character -> single-wildcard, case flip, delete/insert/'
         'substitute one character, unmodified; x the eight operators; one run judges all names; plus the same pattern text '
-        'under two different operators in one query (shared regex cache); non-trivial = pattern accepts some but not all names')
+        'under two different operators in one query (shared regex cache), patterns computed per row from other columns, names with doubled quote characters; non-trivial = pattern accepts some but not all names')
 ASSUMPTIONS = ['regex operators are checked on the Python/Rust common subset (escaped names and a small grammar)',
                'names and patterns never contain both quote characters']
 BUDGET = {'quick': 50, 'thorough': 1200}
@@ -30,7 +33,8 @@ def pool(tier):
         if tier == 'thorough':
             cand += [m + m + 'a', 'a' + m + m, m + 'a' + m, 'a' + m + '1']
         names += cand
-    names += ['a*B', 'a?B', 'a%B', 'a_B', 'aXB', 'aXYB', 'a\\B', 'a.b', 'axb']
+    names += ['a*B', 'a?B', 'a%B', 'a_B', 'aXB', 'aXYB', 'a\\B', 'a.b', 'axb', "it''s", "it's", 'say""hi', 'say"hi', "a''", '""b',
+              'aB.aB', 'x.x', '1.1a', 'B.b']
     seen, out = set(), []
     for n in names:
         if n in ('.', '..') or n in seen:
@@ -108,6 +112,12 @@ def gen(tier):
             c = emit(op, pat, 'regex-grammar')
             if c:
                 yield c
+    # patterns computed per row from other columns: every row brings its own pattern
+    for rhs, f in (("concat('%.', ext)", lambda n, e: '%.' + e), ("concat(ext, '%')", lambda n, e: e + '%'), ("concat('*.', ext)", lambda n, e: '*.' + e),
+                   ("concat('?', substr(name, 2))", lambda n, e: '?' + n[1:]), ('ext', lambda n, e: e), ("concat('^', ext)", lambda n, e: '^' + e),
+                   ("lower(name)", lambda n, e: n.lower()), ("concat('_', substr(name, 2))", lambda n, e: '_' + n[1:])):
+        for op in ('=', '!=', 'like', 'notlike', '===', '!==', '=~', '!=~'):
+            yield {'op': op, 'rhs': rhs, 'pat': rhs, 'fam': 'computed-pattern'}
     # one pattern text under two operators in one query (regex cache keyed by text)
     for pat in ('a*', 'a%', 'a?B', 'a_B', 'a.B', '*B', '%B', 'a+B', 'a', 'aB1'):
         for a, b in (('=', 'like'), ('like', '='), ('=', '=~'), ('=~', 'like'), ('like', '=~'), ('=~', '='),
@@ -129,7 +139,7 @@ def groups(tier, seed):
 
 
 def single(case):
-    return {'cases': [{k: v for k, v in case.items() if k in ('op', 'op2', 'pat', 'fam')}], 'tier': case.get('tier')}
+    return {'cases': [{k: v for k, v in case.items() if k in ('op', 'op2', 'pat', 'fam', 'rhs')}], 'tier': case.get('tier')}
 
 
 def match(op, pat, name):
@@ -152,6 +162,36 @@ def eval_group(env, group, tier):
     outs = []
     try:
         for c in group['cases']:
+            if 'rhs' in c:
+                RH = {"concat('%.', ext)": lambda n, e: '%.' + e, "concat(ext, '%')": lambda n, e: e + '%', "concat('*.', ext)": lambda n, e: '*.' + e,
+                      "concat('?', substr(name, 2))": lambda n, e: '?' + n[1:], 'ext': lambda n, e: e, "concat('^', ext)": lambda n, e: '^' + e,
+                      "lower(name)": lambda n, e: n.lower(), "concat('_', substr(name, 2))": lambda n, e: '_' + n[1:]}[c['rhs']]
+                q = 'name from . where name %s %s into list' % (c['op'], c['rhs'])
+                o = env.run([q], cwd=root)
+                exp = []
+                skip = False
+                for n in names:
+                    e_ = n.rsplit('.', 1)[1] if '.' in n[1:] else ''
+                    try:
+                        if match(c['op'], RH(n, e_), n):
+                            exp.append(n)
+                    except re.error:
+                        skip = True
+                if skip or (c['op'] in ('=~', '!=~') and o.rc == 2):
+                    continue        # a per-row value that is no regular expression is reported by the subject as such
+                case = dict(c, tier=tier, query=q)
+                r = {'case': case, 'nt': 0 < len(exp) < len(names), 'layer': 'computed', 'trans': len(names)}
+                rows = o.rows()
+                if o.timeout or o.rc != 0 or o.err:
+                    r.update(status='viol', cls='computed-pattern:status', detail=dict(o.brief(), query=q), sig=('err', o.rc))
+                elif sorted(rows) != sorted(exp):
+                    got = set(rows)
+                    r.update(status='viol', cls='computed-pattern:' + c['op'], sig=('rows', c['op']),
+                             detail={'query': q, 'missing': sorted(set(exp) - got)[:6], 'extra': sorted(got - set(exp))[:6]})
+                else:
+                    r.update(status='ok', sig=tuple(sorted(exp)))
+                outs.append(r)
+                continue
             lit = quote(c['pat'])
             cond = 'name %s %s' % (c['op'], lit)
             if 'op2' in c:
